@@ -37,6 +37,23 @@ package main
 // exchange has its own conformant server with its own RSA key. Result: the results of the exchanges, " | " between
 // them. A storage that cannot be read (fail) must make NewMTProto give up: res=err:new, nothing sent or stored.
 //
+// An exchange that is NOT the first thing that happens on the client object:
+//
+//   c06.hist <tag> <history> <store> <the 18 tokens of a c06.hs after its tag>
+//
+// <history>: what the application does with the ONE client value (one NewMTProto), a comma-separated list of steps
+// in which `x` is the key exchange described by the 18 tokens (hsPlan in x_hsserver.go):
+//   before x:  dial (a CreateConnection while the server is not up yet: nothing listens at its address, the dial is
+//              refused - what a program started before its server, or before the network, runs into and retries),
+//              disc (Disconnect), fail1 | fail2 | fail3 (a CreateConnection against a server that misbehaves once, in
+//              its reply of that step: the client gives the exchange up);
+//   after x:   reconnect (Reconnect), disc, create (CreateConnection), before the first request is issued.
+// "Any conformant server" does not depend on what the client object went through earlier: x must end exactly like
+// the exchange of a c06.hs (same oracle), the steps before it must have ended as they have to (dial: the connect
+// error; failK: an error; disc: nil) and must have stored nothing, the steps after it must succeed and leave key,
+// salt and the stored session alone; the first request is issued after the last step. <store>: notfound | nil,
+// optionally +<warnings>. Result: `pre=<step:outcome,…> <the result of x as for c06.hs> post=<step:outcome,…>`.
+//
 // Result line (both sides): outcome, TL bodies of the client's three requests, number of encrypted
 // frames seen before CreateConnection returned, client auth key / salt / encrypted / service mode,
 // every session Store; then the server's view: finished or refused, its auth key, salt and the
@@ -424,6 +441,44 @@ func c06SeqOp(tag, keyobj string, stores []string, cs []*hsCase) string {
 	return strings.Join(parts, " ")
 }
 
+// c06Histories: what happened on the client object before (and after) the exchange `x`, generated in every run
+var c06Histories = []string{
+	"dial,x", "dial,dial,x", "dial,disc,x",
+	"fail1,x", "fail2,x", "fail3,x",
+	"fail1,disc,x", "fail2,disc,x", "fail3,disc,x",
+	"x,reconnect", "x,disc,create", "x,reconnect,reconnect",
+	"dial,fail3,disc,x,reconnect", "dial,fail1,fail2,x",
+}
+
+// c06RandomHistory: a history drawn from the rules of hsHistoryOk (never the bare `x`)
+func c06RandomHistory(r *Rand) string {
+	var pre, post []string
+	up := false
+	for n := r.Intn(4); n > 0; n-- {
+		var cand []string
+		if !up {
+			cand = append(cand, "dial", "dial")
+		}
+		if len(pre) > 0 && pre[len(pre)-1] != "disc" {
+			cand = append(cand, "disc", "disc")
+		}
+		cand = append(cand, "fail1", "fail2", "fail3")
+		st := cand[r.Intn(len(cand))]
+		up = up || strings.HasPrefix(st, "fail")
+		pre = append(pre, st)
+	}
+	switch r.Intn(4) {
+	case 0:
+		post = []string{"reconnect"}
+	case 1:
+		post = []string{"disc", "create"}
+	}
+	if len(pre)+len(post) == 0 {
+		pre = []string{"dial"}
+	}
+	return strings.Join(append(append(pre, "x"), post...), ",")
+}
+
 func c06Gen(g *G) {
 	r := g.R
 	// a pool of server keys, used in turn: consecutive exchanges of this process never use the same key twice
@@ -457,6 +512,18 @@ func c06Gen(g *G) {
 		c06InGroup(r, c, groups[i%len(groups)])
 		c.S.TimeRel, c.S.ServerTime = true, int32(off)
 		g.Emit(c.op(fmt.Sprintf("honest:clock%+d", off)), "honest", "clock")
+	}
+	// (a02) exchanges that are not the first thing that happens on the client object: the server was not up at the
+	// first attempt(s), it misbehaved once at each step of the exchange (with and without a Disconnect before the
+	// retry), and what the application may do between the exchange and its first request
+	for i, h := range c06Histories {
+		c := hsRandomCase(r, next())
+		c06InGroup(r, c, groups[i%len(groups)])
+		if i%2 == 0 {
+			c06RelClock(r, c)
+		}
+		sm := []string{"notfound", "nil"}[i%2]
+		g.Emit(c06HistOp("hist:"+h, h, sm, c), "honest", "history", "history="+h)
 	}
 	// (a0) first of all, sequences in one operation: other keys one after another, the caller's key object kept
 	// or not, and the three ways a session storage says "nothing stored"
@@ -574,6 +641,12 @@ func c06Gen(g *G) {
 			cut := r.Intn(n + 1)
 			c.S.ExtraFps, c.S.LaterFps = c.S.ExtraFps[:cut], append([]uint64{}, c.S.ExtraFps[cut:]...)
 		}
+		if i%8 == 3 {
+			h := c06RandomHistory(r)
+			cfg := []string{"notfound", "nil"}[r.Intn(2)] + "+" + hsWarnModes[r.Intn(len(hsWarnModes))]
+			g.Emit(c06HistOp("hist:random", h, cfg, c), "honest", "history", "history=random")
+			continue
+		}
 		if i%8 == 7 {
 			sm := hsStoreModes[r.Intn(len(hsStoreModes))]
 			ko := hsKeyObjModes[r.Intn(len(hsKeyObjModes))]
@@ -588,9 +661,40 @@ func c06Gen(g *G) {
 // c06One: one exchange of the real client (its session storage in the given mode, configured with the key
 // object pub) with a conformant server holding c.S.
 func c06One(c *hsCase, cfg string, pub *rsa.PublicKey) (*hsRun, string) {
+	return c06OneHist(c, cfg, pub, nil, nil)
+}
+
+// c06SplitHistory: `a,b,x,c` -> [a b], [c]
+func c06SplitHistory(h string) (pre, post []string, ok bool) {
+	seen := false
+	for _, st := range strings.Split(h, ",") {
+		switch {
+		case st == "x" && !seen:
+			seen = true
+		case st == "x" || st == "":
+			return nil, nil, false
+		case seen:
+			post = append(post, st)
+		default:
+			pre = append(pre, st)
+		}
+	}
+	return pre, post, seen && hsHistoryOk(pre, post)
+}
+
+func c06ShowSteps(xs []string) string {
+	if len(xs) == 0 {
+		return "-"
+	}
+	return strings.Join(xs, ",")
+}
+
+// c06OneHist: the same as c06One, as one step of what the application does with the client object (pre: before it,
+// post: after it; see hsPlan)
+func c06OneHist(c *hsCase, cfg string, pub *rsa.PublicKey, pre, post []string) (*hsRun, string) {
 	storeMode, warnMode := c06SplitCfg(cfg)
 	hsWarnMode = warnMode
-	run := hsExchangeOn(storeMode, &c.D, pub, &c.S, nil, true)
+	run := hsExchangePlan(&hsPlan{StoreMode: storeMode, D: &c.D, Pub: pub, Secrets: &c.S, Probe: true, Pre: pre, Post: post})
 	hsWarnMode = ""
 	c06LastClock = append(c06LastClock, c06ClockVerdict(c, run))
 	if len(run.Srv.Enc) > 0 && run.Srv.AuthKey != nil {
@@ -640,6 +744,24 @@ func c06ParseSeq(op []string) (keyobj string, steps []c06Step, ok bool) {
 	return keyobj, steps, true
 }
 
+// c06ParseHist: a c06.hist operation
+func c06ParseHist(op []string) (c *hsCase, pre, post []string, ok bool) {
+	if len(op) != 22 || op[0] != "c06.hist" {
+		return nil, nil, nil, false
+	}
+	pre, post, ok = c06SplitHistory(op[2])
+	if st, _ := c06SplitCfg(op[3]); !ok || !c06CfgOk(op[3]) || st == "fail" {
+		return nil, nil, nil, false
+	}
+	c, ok = c06Parse(append([]string{"c06.hs", "x"}, op[4:]...))
+	return c, pre, post, ok
+}
+
+// c06HistOp: the exchange c as step `x` of the history
+func c06HistOp(tag, history, cfg string, c *hsCase) string {
+	return strings.Join(append([]string{"c06.hist", tag, history, cfg}, strings.Fields(c.op("x"))[2:]...), " ")
+}
+
 func c06Exec(op []string) string {
 	c06Last, c06LastClock = nil, nil
 	if len(op) == 0 {
@@ -654,6 +776,14 @@ func c06Exec(op []string) string {
 		run, line := c06One(c, "notfound", &c.S.Key.PublicKey)
 		c06Last = []*hsRun{run}
 		return line
+	case "c06.hist":
+		c, pre, post, ok := c06ParseHist(op)
+		if !ok {
+			return "bad-op"
+		}
+		run, line := c06OneHist(c, op[3], &c.S.Key.PublicKey, pre, post)
+		c06Last = []*hsRun{run}
+		return "pre=" + c06ShowSteps(run.Pre) + " " + line + " post=" + c06ShowSteps(run.Post)
 	case "c06.seq":
 		keyobj, steps, ok := c06ParseSeq(op)
 		if !ok {
@@ -689,6 +819,13 @@ func c06Judge(op []string, out string) string {
 	if op[0] == "c06.hs" {
 		return strings.Join(c06JudgeRun(runs[0], "notfound", clock(0)), "; ")
 	}
+	if op[0] == "c06.hist" {
+		_, pre, post, ok := c06ParseHist(op)
+		if !ok {
+			return "no run recorded"
+		}
+		return strings.Join(c06JudgeHist(runs[0], op[2], op[3], pre, post, clock(0)), "; ")
+	}
 	keyobj, steps, ok := c06ParseSeq(op)
 	if !ok || len(steps) != len(runs) {
 		return "no run recorded"
@@ -702,6 +839,44 @@ func c06Judge(op []string, out string) string {
 		}
 	}
 	return strings.Join(bad, "; ")
+}
+
+// c06JudgeHist: the exchange `x` of a history is judged like any other exchange with a conformant server; what
+// the client object went through before must not show. The steps around it: the earlier attempts ended as such an
+// attempt has to (the server was not there / misbehaved: an error of the application's call, which retries), the
+// calls after it succeeded.
+func c06JudgeHist(run *hsRun, history, cfg string, pre, post []string, clock string) []string {
+	var bad []string
+	add := func(f string, a ...interface{}) { bad = append(bad, fmt.Sprintf(f, a...)) }
+	for i, st := range pre {
+		got := "not run"
+		if i < len(run.Pre) {
+			got = strings.TrimPrefix(run.Pre[i], st+":")
+		}
+		switch {
+		case st == "dial" && got != "err:connect":
+			add("step %d (%s: CreateConnection while the server is not up) ended with %s, not with the connect error", i+1, st, got)
+		case strings.HasPrefix(st, "fail") && !strings.HasPrefix(got, "err:"):
+			add("step %d (%s: CreateConnection against a server misbehaving at step %s of the exchange) ended with %s, not with an error", i+1, st, st[4:], got)
+		case st == "disc" && got != "ok":
+			add("step %d (Disconnect) ended with %s", i+1, got)
+		}
+	}
+	if bs := c06JudgeRun(run, cfg, clock); len(bs) > 0 {
+		add("the key exchange `x` of the history %q on this client object, against a conformant server that is up: %s", history, strings.Join(bs, "; "))
+	}
+	if run.Outcome == "ok" {
+		for i, st := range post {
+			got := "not run"
+			if i < len(run.Post) {
+				got = strings.TrimPrefix(run.Post[i], st+":")
+			}
+			if got != "ok" {
+				add("step %q after the completed exchange ended with %s", st, got)
+			}
+		}
+	}
+	return bad
 }
 
 func c06JudgeRun(run *hsRun, cfg string, clock string) []string {
